@@ -423,6 +423,8 @@ fn gen_op(s: &mut Choices, kind: Kind, st: &mut St) -> Option<Op> {
                     0
                 } else if s.chance(12) {
                     s.range(50, 58)
+                } else if s.chance(16) {
+                    s.range(6, 49)
                 } else {
                     s.below(6)
                 };
@@ -434,7 +436,13 @@ fn gen_op(s: &mut Choices, kind: Kind, st: &mut St) -> Option<Op> {
         Kind::Rhct => {
             let k = s.below(4);
             if k == 3 && st.isas > 0 {
-                let nc = if st.cmos == 0 { 0 } else { s.below(4) };
+                let nc = if st.cmos == 0 {
+                    0
+                } else if s.chance(12) {
+                    s.range(4, 70)
+                } else {
+                    s.below(4)
+                };
                 Op::RhctHart { uid: s.u32(), isa: s.below(st.isas), cmos: (0..nc).map(|_| s.below(st.cmos)).collect() }
             } else if k == 1 {
                 Op::RhctMmu(s.below(3) as u8)
